@@ -644,7 +644,8 @@ func cleanupFlagRule(h H, rule string, names []string) {
 
 func c08R5(h H) {
 	r := h.r
-	r.Rule("R5", "event-hook restore on the reload signal path: cloneEventHooks precedes purgeEventHooks precedes Instance.Restart, and restoreEventHooks is called with the clone exactly on the non-nil edge of Restart's error", 3)
+	r.Rule("R5", "event-hook restore on the reload signal path: cloneEventHooks precedes purgeEventHooks precedes Instance.Restart, and restoreEventHooks is called with the clone exactly on the non-nil edge of Restart's error; and, as a table (E10, the registry modelled as a map): for a registry that is empty or holds a hook, cloneEventHooks followed — after the rejected configuration registered a hook of its own — by restoreEventHooks leaves the registry exactly as it was", 3)
+	hookBackupTable(h)
 	fn := h.fn("R5", "", "trapSignalsPosix")
 	if fn == nil {
 		if h.p.GOOS == "windows" {
